@@ -45,11 +45,21 @@ def switch_table(prog, cg, f, param_name):
     """tag -> list of paths"""
     ev = APE.run(prog, cg, f, bound=APE.BOUND)
     out = {}
+    enum = prog.enums.get("mtbl_compression_type", {})
+    byval = {"#%d" % v: k for k, v in enum.items()}
     for p in ev.paths:
         tag = None
+        tested = False
         for (a, b), v in p.cons.items():
             if b == "switch" and a == param_name:
                 tag = list(v)[0]
+            elif a == param_name and b in byval:
+                # a chain of equality tests (or a search through a table of the constants) instead of a switch
+                tested = True
+                if v == frozenset((EQ,)):
+                    tag = byval[b]
+        if tag is None and tested:
+            tag = "default"
         out.setdefault(tag, []).append(p)
     return out
 
@@ -129,9 +139,13 @@ def run(ctx, res):
         deleg = bool(dpaths)
         pn_ = [x["name"] for x in f.params]
         data_ = [("s", n) for n in pn_ if n not in (pn_[0], "compression_level")]
+        ndeleg = 0
         for p in dpaths:
             dc = [e for e in p.events if e.kind == "call" and e.a in sib and e.a != fn]
+            if not dc and p.ret() == ("c", FAILV) and not [e for e in p.events if e.kind == "call" and e.a in set().union(*ROLE.values())]:
+                continue      # refuses without doing anything (a type it does not know): nothing to delegate
             g_ = prog.func(dc[0].a, U) if dc else None
+            ndeleg += 1
             if len(dc) != 1 or g_ is None or p.ret() != dc[0].c or dc[0].b[0] != ("s", pn_[0]):
                 deleg = False
                 break
@@ -140,6 +154,8 @@ def run(ctx, res):
             if gdata != data_:
                 deleg = False
                 break
+        if deleg and ndeleg == 0:
+            deleg = False
         if deleg:
             res.ok("C15.R1", site(f, "delegates"), "%s hands (type, input, size, output, output_size) unchanged to %s on every path" % (fn, dc[0].a))
             continue
@@ -432,16 +448,25 @@ def _levels(res, f, ev, row):
                           "level %d outside the library's range [%s,%s]" % (v[1], lo, hi), f.loc(e.node), p.describe(f))
             else:
                 vs = APE.vstr(v)
-                lo_ok = lo is None
-                hi_ok = hi is None
-                for (a, b), c in p.cons.items():
-                    if a != vs or not b.startswith("#"):
-                        continue
-                    k = int(b[1:])
-                    if lo is not None and ((k <= lo and LT not in c and (k == lo or EQ not in c or True) and k == lo) or (k == lo - 1 and c == frozenset((GT,)))):
-                        lo_ok = True
-                    if hi is not None and ((k == hi and GT not in c) or (k == hi + 1 and c == frozenset((LT,)))):
-                        hi_ok = True
+                # which integers can the level be on this path?  every comparison of it with a constant narrows the set; all
+                # that remain must lie inside the library's range (probe values around every constant met, and far outside)
+                consts = [int(b_[1:]) for (a_, b_) in p.cons if a_ == vs and re.match(r"^#-?\d+$", b_)]
+                probes = set([-(10 ** 6), 10 ** 6])
+                for k_ in consts + [x for x in (lo, hi) if x is not None]:
+                    probes.update((k_ - 1, k_, k_ + 1))
+                admitted = []
+                for val in sorted(probes):
+                    ok_ = True
+                    for (a_, b_), c in p.cons.items():
+                        if a_ == vs and re.match(r"^#-?\d+$", b_):
+                            k_ = int(b_[1:])
+                            rel = LT if val < k_ else (EQ if val == k_ else GT)
+                            if rel not in c:
+                                ok_ = False
+                    if ok_:
+                        admitted.append(val)
+                lo_ok = all(lo is None or val >= lo for val in admitted)
+                hi_ok = all(hi is None or val <= hi for val in admitted)
                 res.check(lo_ok and hi_ok, "C15.R5", sig, "symbolic level constrained to [%s,%s] on this path" % (lo, hi),
                           "level %s reaches %s without being clamped to [%s,%s]%s" % (vs, target[0], lo, hi,
                                                                                       " (the library call is asserted to succeed)" if f.name.endswith("zlib") else ""),
